@@ -8,6 +8,11 @@ open Corro Corro.Crdt Corro.Node Driver Driver.CrdtFmt
 structure CState where
   nodes : List Node := []
   log : List ((Nat × Nat) × (List Chg × Nat)) := []   -- (site, ver) ↦ original changes, last_seq
+  /-- (node, actor) pairs for which the real Bookie holds an entry although nothing is booked yet
+  (`ensure` in `process_multiple_changes`, and the node's own actor): `process_sync` finds a
+  `BookedVersions` with no head there, so its filter lets every need through. Outside C05's quantifier
+  (requests within advertised heads), tracked so that model and code agree there too. -/
+  ensured : List (Nat × Nat) := []
 
 def CState.node (st : CState) (i : Nat) : Node :=
   match st.nodes.find? (·.id = i) with | some n => n | none => Node.fresh i
@@ -135,7 +140,9 @@ def step (st : CState) (toks : List String) : Option (CState × String) :=
     let i ← nodeIdx n
     match parseItems st (items.splitOn "|") with
     | .error e => if e = "bad-op" then none else pure (st.setNode (st.node i), e)
-    | .ok its => pure (st.setNode ((st.node i).deliver its), "ok")
+    | .ok its =>
+      let st := { st with ensured := st.ensured ++ its.map (fun (it : Item) => (i, it.site)) }
+      pure (st.setNode ((st.node i).deliver its), "ok")
   | ["nsync", d, s, f] => do
     let di ← nodeIdx d; let si ← nodeIdx s
     if di = si then none else
@@ -150,12 +157,17 @@ def step (st : CState) (toks : List String) : Option (CState × String) :=
     let msgs := flat.flatMap fun an => handleNeed src an.1 an.2
     let kept ← applyFilter f msgs
     let dst' := if kept.isEmpty then dst else dst.deliver kept
+    let st := { st with ensured := st.ensured ++ kept.map (fun (it : Item) => (di, it.site)) }
     let st1 := (st.setNode src).setNode dst'
     pure (st1, s!"ok needs={showList (flat.map fun an => showNeed an.1 an.2) ";"} msgs={showList (msgs.map showItem) ";"}")
   | ["nserve", n, site, need] => do
     let i ← nodeIdx n; let a ← nodeIdx site; let nd ← parseNeed need
     let node := st.node i
-    pure (st.setNode node, s!"ok msgs={showList ((node.serve a nd).map showItemFull) ";"}")
+    let msgs :=
+      if node.book.any (·.1 = a) then node.serve a nd
+      else if a = i ∨ st.ensured.contains (i, a) then handleNeed node a nd
+      else []
+    pure (st.setNode node, s!"ok msgs={showList (msgs.map showItemFull) ";"}")
   | ["nstate", n] => do
     let i ← nodeIdx n
     pure (st.setNode (st.node i), showState (st.node i).syncState)
@@ -168,7 +180,7 @@ def step (st : CState) (toks : List String) : Option (CState × String) :=
     pure (st.setNode (st.node i).kill, "ok")
   | ["nrestart", n] => do
     let i ← nodeIdx n
-    pure (st.setNode (st.node i).restart, "ok")
+    pure ({ st.setNode (st.node i).restart with ensured := st.ensured.filter (·.1 ≠ i) }, "ok")
   | _ => none
 
 end Driver.ClusterOps
